@@ -299,7 +299,7 @@ func checkC04(r *verdict.Run) {
 	parallel(len(sizes), 8, func(i int) { c04Large(r, i, sizes[i]) })
 	r.Set("large_hash_sizes", sizes)
 	runDiffSequences(r, tierPick(r, 300, 6000), func(rng *rand.Rand) int { return 30 + rng.Intn(50) },
-		[]string{"h0", "h1", "ws", "wl", "km"}, [][]string{{"SET", "ws", "str"}, {"RPUSH", "wl", "a"}, {"HSET", "h0", "f1", "5", "n", "-5", "m", "abc"}}, c04Gen)
+		[]string{"h0", "h1", "ws", "wl", "wt", "km"}, [][]string{{"SET", "ws", "str"}, {"RPUSH", "wl", "a"}, {"SADD", "wt", "f1", "n", "m"}, {"HSET", "h0", "f1", "5", "n", "-5", "m", "abc"}}, c04Gen)
 	runDiffSequencesN(r, tierPick(r, 24, 240), 2, 10000, func(rng *rand.Rand) int { return 500 + rng.Intn(1000) },
 		[]string{"c0", "c1", "c2", "cd"}, [][]string{{"HSET", "c0", "apple", "1", "banana", "2", "cherry", "3", "date", "4", "fig", "5", "grape", "6"}, {"HSET", "c1", "banana", "1", "kiwi", "2"}}, c04ChurnGen)
 }
